@@ -26,13 +26,19 @@ Definition subok (c : citem) : Prop :=
   | KPlain _ => True
   end.
 
+(* a call whose closure is dropped after its target reference: it went through the main queue, or was never sent *)
+Definition dsq (c : citem) : Prop := match ci_sq c with None | Some QMain => True | Some _ => False end.
+
 Definition mok (s : st) (m : mop) : Prop :=
   match m with
   | MRunItem c | MDropItem c => subok c
-  | MDropInner c => callk c
+  | MDropInner c => callk c /\ dsq c
   | MRetInvoke r _ => forall a, nshape a r -> zombie s a
   | _ => True
   end.
+
+Lemma subok_dsq c : callk c -> subok c -> dsq c.
+Proof. unfold callk, subok, dsq. destruct (ci_kind c); try contradiction; intros _ ->; exact I. Qed.
 
 Record KS (s : st) : Prop := mkKS {
   ks_act : forall a x, aget (actors s) a = Some x -> aok a x;
@@ -288,7 +294,7 @@ Proof.
       destruct f; simpl; try constructor; destruct (f_die fr); try destruct ready; repeat constructor.
   - (* MRunItem *)
     unfold run_item in E. destruct c as [u i kd caps q]. unfold subok in MM. simpl in MM. destruct kd.
-    + inversion E; subst. apply FIN; [eapply KS_same; eauto | apply zmono_same; reflexivity | repeat constructor].
+    + inversion E; subst. apply FIN; [eapply KS_same; eauto | apply zmono_same; reflexivity | repeat constructor; try (apply subok_dsq; [exact Logic.I | exact MM])].
     + destruct (aget (actors s) a) as [x|] eqn:AX.
       * pose proof (ks_act _ K _ _ AX) as AO. destruct (a_state x) eqn:SX; inversion E; subst.
         -- apply FIN; [|eapply zmono_upd; eauto; simpl; rewrite SX; reflexivity | constructor].
@@ -297,14 +303,14 @@ Proof.
            ++ intros Q. specialize (N2 Q). congruence.
            ++ unfold held_of in H. rewrite SX in H. apply Forall_app. split; auto. constructor; [|constructor].
               left. simpl. eauto.
-        -- apply FIN; [eapply KS_same; eauto | apply zmono_same; reflexivity | repeat constructor].
-        -- (apply FIN; [exact K | apply zmono_refl | repeat constructor]).
-      * inversion E; subst. apply FIN; [eapply KS_same; eauto | apply zmono_same; reflexivity | repeat constructor].
+        -- apply FIN; [eapply KS_same; eauto | apply zmono_same; reflexivity | repeat constructor; try (apply subok_dsq; [exact Logic.I | exact MM])].
+        -- (apply FIN; [exact K | apply zmono_refl | repeat constructor; try (apply subok_dsq; [exact Logic.I | exact MM])]).
+      * inversion E; subst. apply FIN; [eapply KS_same; eauto | apply zmono_same; reflexivity | repeat constructor; try (apply subok_dsq; [exact Logic.I | exact MM])].
     + destruct (aget (actors s) a) as [x|] eqn:AX.
       * destruct (ob (count_is_prep (a_strong x))); inversion E; subst.
-        -- apply FIN; [eapply KS_same; eauto | apply zmono_same; reflexivity | repeat constructor].
-        -- (apply FIN; [exact K | apply zmono_refl | repeat constructor]).
-      * inversion E; subst. apply FIN; [eapply KS_same; eauto | apply zmono_same; reflexivity | repeat constructor].
+        -- apply FIN; [eapply KS_same; eauto | apply zmono_same; reflexivity | repeat constructor; try (apply subok_dsq; [exact Logic.I | exact MM])].
+        -- (apply FIN; [exact K | apply zmono_refl | repeat constructor; try (apply subok_dsq; [exact Logic.I | exact MM])]).
+      * inversion E; subst. apply FIN; [eapply KS_same; eauto | apply zmono_same; reflexivity | repeat constructor; try (apply subok_dsq; [exact Logic.I | exact MM])].
     + destruct MM as [MQ MU]. destruct (aget (actors s) p) as [x|] eqn:AX.
       * pose proof (ks_act _ K _ _ AX) as AO. destruct (a_state x) eqn:SX.
         -- inversion E; subst. apply FIN; [|eapply zmono_upd; eauto; simpl; rewrite SX; reflexivity | constructor].
@@ -314,20 +320,20 @@ Proof.
            ++ unfold held_of in H. rewrite SX in H. apply Forall_app. split; auto. constructor; [|constructor].
               right. simpl in *. eauto.
         -- destruct (nth_error slab (N.to_nat key)) as [[child|nx]|]; inversion E; subst.
-           ++ apply FIN; [|eapply zmono_upd; eauto; simpl; rewrite SX; reflexivity | repeat constructor].
+           ++ apply FIN; [|eapply zmono_upd; eauto; simpl; rewrite SX; reflexivity | repeat constructor; try (apply subok_dsq; [exact Logic.I | exact MM])].
               apply KS_upd; auto. destruct AO as (R & S & N1 & N2 & H). split; [|split; [|split; [|split]]]; simpl; auto.
               ** rewrite S, SX. reflexivity.
               ** intros Q. specialize (N2 Q). congruence.
               ** constructor.
-           ++ apply FIN; [eapply KS_same; eauto | apply zmono_same; reflexivity | repeat constructor].
-           ++ apply FIN; [eapply KS_same; eauto | apply zmono_same; reflexivity | repeat constructor].
-        -- inversion E; subst. (apply FIN; [exact K | apply zmono_refl | repeat constructor]).
+           ++ apply FIN; [eapply KS_same; eauto | apply zmono_same; reflexivity | repeat constructor; try (apply subok_dsq; [exact Logic.I | exact MM])].
+           ++ apply FIN; [eapply KS_same; eauto | apply zmono_same; reflexivity | repeat constructor; try (apply subok_dsq; [exact Logic.I | exact MM])].
+        -- inversion E; subst. (apply FIN; [exact K | apply zmono_refl | repeat constructor; try (apply subok_dsq; [exact Logic.I | exact MM])]).
       * inversion E; subst. apply FIN; [eapply KS_same; eauto | apply zmono_same; reflexivity | constructor].
-    + inversion E; subst. (apply FIN; [exact K | apply zmono_refl | repeat constructor]).
-    + inversion E; subst. (apply FIN; [exact K | apply zmono_refl | repeat constructor]).
+    + inversion E; subst. (apply FIN; [exact K | apply zmono_refl | repeat constructor; try (apply subok_dsq; [exact Logic.I | exact MM])]).
+    + inversion E; subst. (apply FIN; [exact K | apply zmono_refl | repeat constructor; try (apply subok_dsq; [exact Logic.I | exact MM])]).
   - (* MDropItem: a call *)
     destruct c as [u i kd caps q]. unfold ci_call in KC. simpl in KC. destruct kd; try discriminate KC; simpl in E; inversion E; subst;
-      ((apply FIN; [exact K | apply zmono_refl | repeat constructor])).
+      ((apply FIN; [exact K | apply zmono_refl | repeat constructor; try (apply subok_dsq; [exact Logic.I | exact MM])])).
   - (* MDropInner *)
     inversion E; subst. apply FIN; [eapply KS_same; eauto | apply zmono_same; reflexivity | apply gen_mok, gen_drops].
   - (* MDropRef *)
@@ -362,8 +368,8 @@ Proof.
         constructor; [apply subok_as_call | constructor].
       * apply FIN; [eapply KS_same; eauto | apply zmono_same; reflexivity|].
         constructor; [exact I|]. constructor; [|constructor]. simpl.
-        unfold mwf, nsf in MW. simpl in MW. pose proof (Forall_inv MW) as TG. simpl in TG. destruct TG as [TK _].
-        unfold callk. destruct (ci_kind ci); auto.
+        unfold mwf, nsf in MW. simpl in MW. pose proof (Forall_inv MW) as TG. simpl in TG. destruct TG as [TK TS].
+        split; [unfold callk; destruct (ci_kind ci); auto | unfold dsq; rewrite TS; exact I].
     + destruct inner as [[p ci]|]; inversion E; subst.
       * apply FIN; [|apply zmono_same; reflexivity | constructor].
         destruct K as [A MQ KK]. constructor; auto. unfold submit, push_main; simpl. apply Forall_app. split; auto.
